@@ -335,6 +335,25 @@ def call_builtin(I, name, args, kwargs, e, fr):
             # a method chosen at run time may append any gate
             o.term = t_seq(o.term, ("unknown", f"method of the circuit selected dynamically via getattr at {where(fr, e)}"))
         return I.derive("builtin:getattr", *args)
+    if name == "setattr" and len(args) == 3:
+        o = I.obj(args[0])
+        names = args[1].vals if isinstance(args[1], Alt) else [args[1]]
+        names = [n for n in names if not (isinstance(n, Sym) and n.tag == "noelem")]
+        if o is None or o.kind != "record":
+            raise Unsupported(f"setattr on {args[0]!r} at {where(fr, e)}")
+        if names and all(isinstance(n, Const) and isinstance(n.v, str) for n in names):
+            # the attribute name ranges over a known finite set (a table of field names walked in a loop): each of the
+            # fields may receive the value - a weak store, joined with what the field held
+            init_self = fr.func is not None and fr.func.name == "__init__" and fr.func.params and isinstance(e.args[0], ast.Name) and e.args[0].id == fr.func.params[0]
+            for n in names:
+                if not init_self:
+                    I.mutate(o, f"setattr .{n.v}", e)
+                if len(names) == 1 and not I.weak(o):
+                    o.fields[n.v] = args[2]
+                else:
+                    o.fields[n.v] = join(o.fields.get(n.v), args[2]) if n.v in o.fields else args[2]
+            return Const(None)
+        raise Unsupported(f"setattr with an attribute name that is not one of a known set of constants at {where(fr, e)}")
     if name in ("type",):
         return Sym("type", a0 if not isinstance(a0, Ref) else I.sym_of(a0))
     if name in ("super",):
